@@ -249,6 +249,17 @@ def r3(ctx: Context, sites) -> None:
     rets = [n for n in walk_no_nested(ms.node) if isinstance(n, ast.Return)]
     ok = bool(rets) and isinstance(rets[-1].value, ast.Name) and rets[-1].value.id in keys
     ctx.add("R3", f"{ms.qualname}::returns-the-key", ok, ms.loc(), "" if ok else "")
+    # a reference handed out is a reference stored: the backend write dominates every return of the key
+    from ..flow import cfg_node_of, func_cfg, parent_map
+
+    g = func_cfg(repo, ms)
+    pm = parent_map(ms.node)
+    dom = g.dominators()
+    store_nodes = {n.id for c in scalls for n in cfg_node_of(g, ms.node, c, pm)}
+    key_returns = [r for r in rets if isinstance(r.value, ast.Name) and r.value.id in keys]
+    undominated = [r for r in key_returns for n in cfg_node_of(g, ms.node, r, pm) if not (dom.get(n.id, set()) & store_nodes)]
+    ok = bool(key_returns) and bool(store_nodes) and not undominated
+    ctx.add("R3", f"{ms.qualname}::every-returned-key-was-written", ok, ms.loc(undominated[0]) if undominated else ms.loc(), "" if ok else "a reference key can be returned without the backend write on that path (e.g. skipped because a process-local cache knows the key): after a purge / clean-up by another process the reference dangles and cannot be resolved")
     # thresholds
     sizes = assigned_from(ms.node, lambda v: isinstance(v, ast.Call) and call_name(v) == "len" and ast.unparse(v.args[0]) == ms.params[1])
     conds = [n for n in walk_no_nested(ms.node) if isinstance(n, ast.If)]
